@@ -21,7 +21,10 @@ InstantsFor(m) == IF m \in Blocking THEN {"deadline", "tick3"} ELSE Instants
 ReuseMains == {"for", "forrange", "recursion", "calltree", "eachcb", "sortedcb", "recv", "sendfull", "sleep", "wait"}
 ReuseScenarios == {[main |-> m, tree |-> [depth |-> 0, form |-> "none", body |-> "none"], at |-> a] :
                      m \in ReuseMains, a \in {"reuse_idle", "reuse_during"}}
-Scenarios == UNION {{[main |-> m, tree |-> t, at |-> a] : t \in Trees, a \in InstantsFor(m)} : m \in Mains} \cup ReuseScenarios
+\* one VM, two invocations under DIFFERENT contexts: a thread started by a run under a context that stays live is
+\* waited for by a later Call under the scenario's context, which must return when its OWN context is done
+CrossScenarios == {[main |-> "crosswait", tree |-> [depth |-> 0, form |-> "none", body |-> "none"], at |-> "reuse_wait"]}
+Scenarios == CrossScenarios \cup UNION {{[main |-> m, tree |-> t, at |-> a] : t \in Trees, a \in InstantsFor(m)} : m \in Mains} \cup ReuseScenarios
 Expected(s) == [returns |-> TRUE, err |-> "ctxerr", ticks_after_return |-> 0]
 VARIABLE s
 Init == s \in Scenarios
